@@ -7,9 +7,9 @@ import (
 	"fmt"
 	"strings"
 
-	"verif/harness/ref"
 	"math/rand/v2"
 	"sort"
+	"verif/harness/ref"
 
 	"verif/harness/core"
 	"verif/harness/eco"
@@ -136,7 +136,6 @@ func evalWitnesses(c *core.Ctx, ck *Check) {
 // C19Child is set by c19.go.
 var C19Child func(args []string) int
 
-
 // inheritedNonTransitive reports whether the implementation's order on strs is non-transitive ONLY because the
 // upstream reference algorithm itself is: the reference (Maven ComparableVersion 3.8.7, libalpm vercmp; both are
 // documented to be faithful targets by C12 resp. by the repository's vercmp-verified tests) gives the same sign
@@ -188,7 +187,6 @@ func inheritedNonTransitive(e *eco.Eco, strs []string) bool {
 	}
 	return false
 }
-
 
 // mavenExpandBareAliases rewrites letter runs that are exactly a, b or m (any case) to alpha, beta, milestone.
 func mavenExpandBareAliases(s string) string {
